@@ -29,7 +29,7 @@ PROBES = ['get-readable', 'get-write-only-refused', 'set-writable', 'set-read-on
           'local-assign-silent', 'remote-set-emits', 'same-name-two-interfaces',
           'inherited-property', 'empty-interface-name', 'get-after-remote-set',
           'two-instances-of-one-class', 'exported-on-an-older-connection-first',
-          'properties-declared-on-abstract-class', 'own-interface-has-get-set-getall', 'misdeclared-sibling-rejected-first']
+          'properties-declared-on-abstract-class', 'own-interface-has-get-set-getall', 'unencodable-assignment-then-valid-one', 'wrapper-of-another-type-assigned', 'misdeclared-sibling-rejected-first']
 COMPONENTS = {
     'real': ['txdbus.objects.DBusProperty / DBusObject (_dbus_PropertyGet/Set/GetAll, '
              'getAllProperties, emitSignal)', 'DBusObjectHandler dispatch',
@@ -174,6 +174,26 @@ def scenario(ctx):
         ps, _, acc, em = rec['reg'][k]
         ref, pyv = gen.prop_value(ds, ps)
         drain_sent()
+        if em == 'true' and ps in 'nqiuxtyd' and ds.flag(0.12):
+            # first a value that cannot be announced as the declared type: the assignment fails;
+            # the valid one that follows is announced like any other
+            sim.probe('unencodable-assignment-then-valid-one')
+            try:
+                rig.call(setattr, rec['obj'], rec['cs'].attr(*k), ds.pick(['not a number', None, [1]]))
+            except Exception as e:
+                sim.log('assign-refused', type(e).__name__)
+            drain_sent()
+        if ps in 'nqiuxt' and isinstance(pyv, int) and ds.flag(0.15):
+            # the application hands over a marshal wrapper of ANOTHER integer type (taken from a
+            # received structure, say): the property keeps its declared type
+            from txdbus import marshal as tm
+            other = [c for c, (lo, hi) in (('n', (-2**15, 2**15 - 1)), ('q', (0, 2**16 - 1)),
+                                           ('i', (-2**31, 2**31 - 1)), ('u', (0, 2**32 - 1)),
+                                           ('x', (-2**63, 2**63 - 1)), ('t', (0, 2**64 - 1)))
+                     if c != ps and lo <= int(pyv) <= hi and c in tm.variantClassMap]
+            if other:
+                pyv = tm.variantClassMap[ds.pick(other)](int(pyv))
+                sim.probe('wrapper-of-another-type-assigned')
         sim.log('op', 'assign', p, k[0], k[1])
         try:
             rig.call(setattr, rec['obj'], rec['cs'].attr(*k), pyv)
